@@ -248,15 +248,18 @@ META = {
                 'the route checker route_ok decides "at least two points, starts/ends at the attachments, no point of any segment strictly inside '
                 'a shape not containing an endpoint"; (2) the per-shape loop of EdgeInf::firstBlocker / Router::newBlockingShape, as a fold of the '
                 'cpp2v-regenerated segmentShapeIntersect, equals "some edge properly crossed or two endpoint touches", is order independent, is '
-                'complete on non-degenerate chords (partial) and is REFUTED on degenerate chords (square (0,0)-(10,10), segment (-5,-5)-(15,15); '
+                'complete on non-degenerate chords (blocked_complete: a segment through the interior that hits the relative interior of an edge is blocked; '
+                'for strictly convex shapes the unblocked family is exactly "meets the boundary only at vertices / own endpoints, fewer than two endpoint touches") '
+                'and is REFUTED on degenerate chords (square (0,0)-(10,10), segment (-5,-5)-(15,15); '
                 'known finding F-b, replayed on the real router every run); (3) the reference router only returns chains of visible segments, '
                 'so its routes pass route_ok. Tie: translator for the predicates + the extracted route_ok run on every real displayRoute of a '
                 'generic and a degenerate scene stream (V: validation and search, not proof of the implementation).',
         'design_ref': 'DESIGN.md 5.3'},
     'level_note': 'partial + finding. Trusted: Coq kernel; cpp2v.py + clang AST; exact-rational model of binary64; extraction (ExtrOcamlBasic) and the '
                   'OCaml/C++ drivers. Not modelled: Lee\'s rotational sweep (visibility.cpp), the orthogonal sweep and nudging - seen only through '
-                  'route validity on generated scenes. Not proved: that "no edge of a convex polygon is properly crossed by a segment through its '
-                  'interior" means the segment meets the boundary only at vertices/own endpoints (the classifier degenerate_chord uses the former). '
+                  'route validity on generated scenes. The classifier degenerate_chord is proved equal to its declarative meaning (degenerate_chord_exact, '
+                  'boundary_vertices_iff); the blocking test is proved sound for strictly convex shapes with distinct vertices and non-empty interior '
+                  '(blocked_sound, blocked_exact); the reference search is proved never to answer SearchFail (route_plain_total). '
                   'Orthogonal mode treats shapes as bounding boxes, so endpoints are generated outside the boxes there.',
     'technique': 'Coq proof over cpp2v-regenerated Gallina + verified route checker run on the implementation\'s routes',
 }
